@@ -73,11 +73,11 @@ var lockAcquire = map[string]bool{"Lock": true, "TryLock": true, "LockWithTimeou
 
 func isILockRecv(v ssa.Value) bool {
 	t := v.Type()
-	if n, ok := t.(*types.Named); ok && n.Obj().Name() == "ILock" && n.Obj().Pkg() != nil && strings.HasSuffix(n.Obj().Pkg().Path(), "/filesystem") {
+	if n, ok := types.Unalias(t).(*types.Named); ok && n.Obj().Name() == "ILock" && n.Obj().Pkg() != nil && strings.HasSuffix(n.Obj().Pkg().Path(), "/filesystem") {
 		return true
 	}
 	if p, ok := t.(*types.Pointer); ok {
-		if n, ok := p.Elem().(*types.Named); ok && n.Obj().Name() == "RemoteLockFile" {
+		if n, ok := types.Unalias(p.Elem()).(*types.Named); ok && n.Obj().Name() == "RemoteLockFile" {
 			return true
 		}
 	}
